@@ -9,6 +9,10 @@ from .. import annot
 RES = 'ACDEFGHIKLMNPQRSTVWY'
 LABELS = ['13C', '15N', '18O', '17O', '34S', 'D', 'T', '2H']
 # element each label replaces
+# hand-typed reference masses (NIST Atomic Weights and Isotopic Compositions / AME2016), NOT read from the library's table
+REF_ISOTOPE_MASS = {'H': 1.00782503223, 'D': 2.01410177812, '2H': 2.01410177812, 'T': 3.0160492779, 'C': 12.0,
+                    '13C': 13.00335483507, 'N': 14.00307400443, '15N': 15.00010889888, 'O': 15.99491461957,
+                    '17O': 16.99913175650, '18O': 17.99915961286, 'S': 31.9720711744, '34S': 33.967867004}
 LABEL_ELEMENT = {'13C': 'C', '15N': 'N', '18O': 'O', '17O': 'O', '34S': 'S', 'D': 'H', 'T': 'H', '2H': 'H'}
 
 NUMERIC = [1, -1, 100, 15.995, -18.0106, 0.5, 42.0106, 79.97, 1.5, -17.03, 57.02, 10, 3.1415]
@@ -172,13 +176,14 @@ def gen_rules(rng, seq, pool=POOL, max_rules=3):
         cand += ['N-Term', 'C-Term']
         if rng.random() < 0.5:
             cand += ['N-Term', 'C-Term']
-        k = min(rng.choice([1, 1, 2, 3]), len(set(cand)))
+        big_rule = rng.random() < 0.15           # make sure rules with two modifications AND three targets occur
+        k = min(3 if big_rule else rng.choice([1, 1, 2, 3]), len(set(cand)))
         targets = []
         while len(targets) < k:
             t = rng.choice(cand)
             if t not in targets:
                 targets.append(t)
-        mods = [rng.choice(pool) for _ in range(rng.choice([1, 1, 2]))]
+        mods = [rng.choice(pool) for _ in range(2 if big_rule else rng.choice([1, 1, 2]))]
         rules.append((mods, targets))
     return rules
 
